@@ -3,6 +3,7 @@ package props
 import (
 	"encoding/json"
 	"fmt"
+	z "github.com/Oudwins/zog"
 	"sort"
 	"strings"
 
@@ -60,6 +61,54 @@ func permuteMaps(r *rng.Rand, data any) any {
 		return out
 	}
 	return data
+}
+
+// anyKeyedMap turns a record into a map[any]any in which every string key has a twin of another type with the same text
+// (a named string type) carrying another value, inserted in a random order.
+func anyKeyedMap(r *rng.Rand, data any) any {
+	m, ok := data.(map[string]any)
+	if !ok {
+		return data
+	}
+	type entry struct{ k, v any }
+	var es []entry
+	for k, v := range m {
+		es = append(es, entry{k, v}, entry{gen.KeyStr(k), "twin-of-" + k})
+	}
+	sort.Slice(es, func(i, j int) bool { return fmt.Sprint(es[i].k, es[i].v) < fmt.Sprint(es[j].k, es[j].v) })
+	out := make(map[any]any, len(es))
+	for _, i := range r.Perm(len(es)) {
+		out[es[i].k] = es[i].v
+	}
+	return out
+}
+
+type c09Dest struct {
+	A string
+	L []string
+}
+
+var c09AmbientSchema = z.Struct(z.Schema{"a": z.String(), "l": z.Slice(z.String()).Min(3)}).TestFunc(func(any, z.Ctx) bool { return false })
+
+// c09Ambient: executions whose FIRST issue is a root-level one (struct-level test, slice-level test, undecodable body), handed back
+// with the Collect helpers.
+func c09Ambient(r *rng.Rand) {
+	var d c09Dest
+	var m z.ZogIssueMap
+	switch r.Intn(3) {
+	case 0:
+		m = c09AmbientSchema.Parse(map[string]any{"a": "x", "l": []any{"1", "2", "3"}}, &d)
+	case 1:
+		var l []string
+		m = z.Slice(z.String()).Min(3).Parse([]any{"1"}, &l)
+	default:
+		m = c09AmbientSchema.Parse(zjson.Decode(strings.NewReader(`[1,2`)), &d)
+	}
+	if r.Bool() {
+		z.Issues.CollectMap(m)
+	} else {
+		_ = z.Issues.SanitizeMapAndCollect(m)
+	}
 }
 
 func canonResult(o *run.Outcome) string {
@@ -140,12 +189,22 @@ func (c09) RunCase(c *core.Ctx) {
 				}
 			})
 			hadIssue := false
+			anyKeyed := mode == ref.Parse && c.R.Intn(6) == 0
 			for rep := 0; rep < reps; rep++ {
+				if rep%3 == 1 {
+					c09Ambient(c.R) // unrelated executions whose results are handed back, between the observed ones
+				}
 				rec := &orderRecorder{}
 				b := spec.Build(n, rec.hooks(c.R))
 				var out *run.Outcome
 				switch mode {
 				case ref.Parse:
+					if anyKeyed {
+						// the record as a map[any]any (what YAML-like decoders produce) whose keys collide in their text form:
+						// whatever such an input means, it means the same on every run
+						out = run.Parse(b, anyKeyedMap(c.R, permuteMaps(c.R, data)), nil)
+						break
+					}
 					out = run.Parse(b, permuteMaps(c.R, data), nil)
 				case ref.Validate:
 					out = run.Validate(b, val)
@@ -162,6 +221,14 @@ func (c09) RunCase(c *core.Ctx) {
 					hadIssue = true
 				}
 				cr := canonResult(out)
+				if anyKeyed {
+					// the harness cannot render a map whose keys collide in their text form deterministically: the issue's reference
+					// to the offending value is left out of the comparison in these runs
+					cr = obs.Multiset(out.Issues, func(ci obs.CI) string { return ci.Key + "|" + ci.Triple() + "|" + ci.Message + "|" + ci.Err })
+					if len(out.Issues) == 0 {
+						cr += "\ndest=" + obs.Render(out.Dest)
+					}
+				}
 				ord := strings.Join(rec.seq, ",")
 				orders[ord] = true
 				if len(results) == 0 {
